@@ -30,6 +30,7 @@ import (
 	"strings"
 
 	"diagonal.works/b6"
+	"diagonal.works/b6/ingest/compact"
 	"verif/kit"
 	mk "verif/mutkit"
 	wk "verif/worldkit"
@@ -238,6 +239,42 @@ func countTypedPositions(r *kit.Result, spec wk.Spec, menu []wk.RQ) {
 	}
 }
 
+// buildTypedCompacts: compact single file; the first and the second half of
+// the features as two self-contained files, in both merge orders; the same
+// features in both files. File images come from the process-wide cache of
+// part C (a compact build clears a ~80 MB buffer, so builds dominate the cost).
+func buildTypedCompacts(spec wk.Spec) []built {
+	var out []built
+	add := func(name, detail string, parts ...wk.Spec) {
+		var w *compact.World
+		var err error
+		cls, msg := kit.Catch(func() {
+			w = compact.NewWorld()
+			for i, p := range parts {
+				var d []byte
+				if d, err = tokenImage(p); err != nil {
+					err = fmt.Errorf("build file %d: %w", i, err)
+					return
+				}
+				if err = w.Merge(d); err != nil {
+					err = fmt.Errorf("merge file %d: %w", i, err)
+					return
+				}
+			}
+		})
+		if cls != "" {
+			err = fmt.Errorf("%s: %s", cls, msg)
+		}
+		out = append(out, built{name: name, detail: detail, w: w, expect: spec, err: err})
+	}
+	add("compact", "", spec)
+	a, b := spec[:len(spec)/2], spec[len(spec)/2:]
+	add("compact-merged:two-self-contained-files", "files "+specNames(a)+" then "+specNames(b), a, b)
+	add("compact-merged:two-self-contained-files", "files "+specNames(b)+" then "+specNames(a), b, a)
+	add("compact-merged:same-features-in-both-files", "", spec, spec)
+	return out
+}
+
 func runTyped(tier string, w typedWorld, sch wk.IDScheme, menu []wk.RQ, sample bool) kit.Result {
 	var r kit.Result
 	spec, names := w.spec(tier, sch)
@@ -248,6 +285,8 @@ func runTyped(tier string, w typedWorld, sch wk.IDScheme, menu []wk.RQ, sample b
 			"some queries": []string{menu[len(menu)/4].String(), menu[len(menu)/2].String(), menu[len(menu)-1].String()}}
 	}
 	countTypedPositions(&r, spec, menu)
-	judge(&r, buildAll(spec, true, true), sch, strings.Join(names, " "), "typed-compound:", menu, nil)
+	desc := strings.Join(names, " ")
+	judge(&r, buildAll(spec, true, false), sch, desc, "typed-compound:", menu, nil)
+	judge(&r, buildTypedCompacts(spec), sch, desc, "typed-compound:", menu, nil)
 	return r
 }
